@@ -1,3 +1,4 @@
+import IncanModel.Generated.CrateTable
 /-
 Model of the dependency section of the generated Cargo.toml.
 
@@ -15,11 +16,6 @@ abbrev Name := List Nat
 
 def nm (s : String) : Name := s.toUTF8.toList.map UInt8.toNat
 
-inductive Spec where
-  | version (v : String) (features : List String)
-  | path (p : String) (features : List String)
-  | wildcard                                        -- `name = "*"`
-  deriving DecidableEq, Repr
 
 /-- Byte-wise lexicographic `≤` (what `String::cmp` implements). -/
 def lexLe : Name → Name → Bool
@@ -27,27 +23,9 @@ def lexLe : Name → Name → Bool
   | _ :: _, [] => false
   | a :: as, b :: bs => if a < b then true else if a = b then lexLe as bs else false
 
-/-- The known-good table of `add_rust_crate`. -/
-def knownTable : List (String × Spec) := [
-  ("serde", .version "1.0" ["derive"]),
-  ("serde_json", .version "1.0" []),
-  ("tokio", .version "1" ["rt-multi-thread", "macros", "time", "sync"]),
-  ("time", .version "0.3" ["formatting", "macros"]),
-  ("chrono", .version "0.4" ["serde"]),
-  ("reqwest", .version "0.11" ["json"]),
-  ("uuid", .version "1.0" ["v4", "serde"]),
-  ("rand", .version "0.8" []),
-  ("regex", .version "1.0" []),
-  ("anyhow", .version "1.0" []),
-  ("thiserror", .version "1.0" []),
-  ("tracing", .version "0.1" []),
-  ("clap", .version "4.0" ["derive"]),
-  ("log", .version "0.4" []),
-  ("env_logger", .version "0.10" []),
-  ("sqlx", .version "0.7" ["runtime-tokio-native-tls", "postgres"]),
-  ("futures", .version "0.3" []),
-  ("bytes", .version "1.0" []),
-  ("itertools", .version "0.12" [])]
+/-- The known-good table of `add_rust_crate`: REGENERATED from src/backend/project.rs on every run of `./check C15`
+(Generated/CrateTable.lean: one entry per match arm, `.wildcard` for an arm that yields no version). -/
+def knownTable : List (String × Spec) := Generated.crateTable
 
 def known (name : String) : Option Spec := (knownTable.find? (fun e => e.1 == name)).map (·.2)
 
